@@ -7,6 +7,16 @@ From DV Require Import Base.Prelude Base.Int Base.WrapZ Gen.Consts Gen.Arith
 From Coq Require Import Sorting.Sorted Sorting.Permutation.
 Local Open Scope Z_scope.
 
+(* The model's coordinate arithmetic is, word for word, what the translator generates from the
+   current Go source (Gen/Arith.v is rebuilt on every run). *)
+Theorem C18_source_tie :
+  g_EncodeBlockIndex = r_EncodeBlockIndex /\ g_DecodeBlockIndex = r_DecodeBlockIndex
+  /\ g_BlockIndexToIZYXString = r_BlockIndexToIZYXString
+  /\ g_BlockIndexToIZYXString_via = r_BlockIndexToIZYXString_via
+  /\ g_Point3d_ToZYXBytes = r_Point3d_ToZYXBytes /\ g_Point3d_FromZYXBytes = r_Point3d_FromZYXBytes
+  /\ g_Point3d_Chunk = r_Point3d_Chunk.
+Proof. exact source_tie. Qed.
+
 (* ---------- block-coordinate keys: for ALL int32 coordinates ---------- *)
 
 (* Encoding a block coordinate gives 12 bytes that decode to the same coordinate. *)
